@@ -14,19 +14,27 @@ Patterns == { << <<"M", 40>>, <<"M", 60>> >>,
               << <<"M", 150>>, <<"M", 100>>, <<"S", 30>>, <<"M", 200>> >>,
               << <<"M", 200>>, <<"S", 25>>, <<"M", 350>>, <<"S", 40>>, <<"M", 200>> >>,
               << <<"J", 60>>, <<"M", 150>>, <<"S", 30>>, <<"M", 150>> >>,          \* junction at the west end
-              << <<"J", 40>>, <<"M", 200>>, <<"J", 40>> >> }                        \* junctions at both ends
-HasJ == \E i \in 1..Len(stages) : stages[i][1] = "J"
+              << <<"J", 40>>, <<"M", 200>>, <<"J", 40>> >>,                         \* junctions at both ends
+              << <<"D", 25>> >>, << <<"D", 40>> >> }                                \* diamond crossing, crossing link 2.5 / 4 km
+HasJ == \E i \in 1..Len(stages) : stages[i][1] \in {"J", "D"}
+IsD == stages[1][1] = "D"
+Speeds == {8, 20}               \* per-train maximum speed: slow leaders, fast followers
 Gaps == {0, 240, 1500}          \* tie, below the 8 min headway, well above it
 Cars == {20, 80}
 
 Init == stages \in Patterns /\ lockouts \in BOOLEAN /\ trains = <<>>
 AddTrain == /\ Len(trains) < MaxTrains
-            /\ \E d \in {"E", "W"}, g \in Gaps, c \in Cars, b \in (IF HasJ THEN {0, 1, 2} ELSE {0}) :      \* 2 = both branches (two origin / destination links)
-                 trains' = Append(trains, [dir |-> d, ncars |-> c, bo |-> b, bd |-> b,
+            /\ \E d \in {"E", "W"}, g \in Gaps, c \in Cars, vm \in Speeds,
+                  b \in (IF HasJ THEN {0, 1, 2} ELSE {0}) :      \* 2 = both branches (two origin / destination links)
+                 trains' = Append(trains, [dir |-> d, ncars |-> c, bo |-> b, bd |-> b, line |-> b % 2, vmax |-> vm,
                                            depart |-> (IF trains = <<>> THEN 120 ELSE trains[Len(trains)].depart) + g])
             /\ UNCHANGED <<stages, lockouts>>
 Spec == Init /\ [][AddTrain]_<<stages, lockouts, trains>>
 Emit == Len(trains) >= 1 =>
-          PrintT(<<"REPLAY", ToJson([stages |-> stages, lockouts |-> lockouts, foul |-> 2, v |-> <<16>>,
+          IF IsD
+          THEN lockouts => PrintT(<<"REPLAY", ToJson([topo |-> "diamond", stages |-> << <<"M", 400>> >>, lockouts |-> TRUE,
+                                     a |-> <<50, stages[1][2], 80>>, b |-> <<53, stages[1][2], 80>>, v |-> <<20, 20>>,
+                                     trains |-> trains])>>)
+          ELSE PrintT(<<"REPLAY", ToJson([stages |-> stages, lockouts |-> lockouts, foul |-> 2, v |-> <<20>>,
                                      trains |-> trains])>>)
 =============================================================================
